@@ -26,6 +26,7 @@ EXPLANATION = (
     "equal to zero; (FRESH) no in-place write reaches a value that may share storage with "
     "the caller's arrays. "
     "Round 7: (ZEROSHAPE, known finding F31) the executor's stripped returns agree in kind: no bare-number mantissa next to array-valued ones, because per-slice results are stacked along sliced output indices. "
+    "Round 8 (engine E9): (ADDEREVAL) the adder's source is evaluated on a family of plain values and (mantissa, exponent) pairs spanning exponents -inf and -300..300 and compared with the exact rational sum. "
 )
 ASSUMPTIONS = (
     "contract_mpi is out of scope: it documents a plain sum of raw buffers reduced by "
@@ -901,4 +902,70 @@ def rule_corekey(ctx):
                         lambda i: True, 1)
 
 
-RULES = [rule_corekey, rule_zeroshape, rule_combine, rule_pair, rule_adder, rule_rescale, rule_scale, rule_option, rule_fresh]
+def rule_addereval(ctx):
+    """(engine E9) The exponent-aware adder is a pure function of two values, each a plain number or a (mantissa,
+    exponent) pair.  Its source is evaluated on every pair from a family that spans the property's range — exponents
+    -inf (the zero sentinel), -300, -5, 0, 7, 300; mantissas 0, 1.5, -2.5, 1e-3; plain numbers — and the result is
+    compared, in exact rational arithmetic, with the sum of the two represented values: finite mantissa and exponent,
+    relative error below 1e-12 of the larger term, a pair whenever either argument is a pair."""
+    from fractions import Fraction
+
+    from ..engine.minieval import Mini, NoEval, Raised
+
+    r = RuleResult("C19-ADDEREVAL", "the adder returns the sum of the represented values over the property's exponent range", 1)
+    f = ctx.p.func(C.CORE, ADDER)
+    C.require(f is not None, "add_maybe_exponent_stripped not found")
+    k = ctx.key(f, "C19-ADDEREVAL")
+    ninf = float("-inf")
+    vals = [2.0, 0.0, -3.5] + [(m_, e_) for m_ in (0.0, 1.5, -2.5, 1e-3) for e_ in (ninf, -300.0, -5.0, 0.0, 7.0, 300.0) if (e_ == ninf) == (m_ == 0.0)]  # a zero result is the sentinel (0.0, -inf); other mantissas are non-zero
+
+    def exact(v):
+        if isinstance(v, tuple):
+            m_, e_ = v
+            if e_ == ninf:
+                return Fraction(0) if m_ == 0 else None
+            if e_ != e_ or e_ == float("inf") or m_ != m_ or m_ in (float("inf"), ninf):
+                return None
+            ei = int(e_)
+            return Fraction(m_) * (Fraction(10) ** ei)
+        if v != v or v in (float("inf"), ninf):
+            return None
+        return Fraction(v)
+    bad = None
+    n = 0
+    try:
+        for x in vals:
+            for y in vals:
+                n += 1
+                try:
+                    got = Mini({}, budget=5000).call(f.node, [x, y])
+                except Raised as e:
+                    bad = bad or (x, y, f"raises ({e.text})")
+                    continue
+                except NoEval:
+                    raise
+                except Exception as e:
+                    bad = bad or (x, y, f"raises ({type(e).__name__}: {e})")
+                    continue
+                want = exact(x) + exact(y)
+                if isinstance(got, tuple) != (isinstance(x, tuple) or isinstance(y, tuple)):
+                    bad = bad or (x, y, f"returns {got!r}: a {'pair' if isinstance(got, tuple) else 'plain value'} is not what the arguments call for")
+                    continue
+                g = exact(got)
+                if g is None:
+                    bad = bad or (x, y, f"returns {got!r}, which is not finite")
+                    continue
+                scale = max(abs(exact(x)), abs(exact(y)))
+                if abs(g - want) > scale * Fraction(1, 10 ** 12):
+                    bad = bad or (x, y, f"returns {got!r}, the sum of the represented values is about {float(want) if abs(want) < 10**300 else want.numerator // want.denominator:.6g}")
+    except NoEval as e:
+        raise AnalysisError(f"add_maybe_exponent_stripped: not evaluable by the mini-evaluator ({e})")
+    if bad:
+        r.violation(k, f.loc, f"add_maybe_exponent_stripped({bad[0]!r}, {bad[1]!r}) {bad[2]}: a sliced contraction with exponent stripping combines "
+                    "its per-slice results with this function")
+    else:
+        r.ok(k, f.loc, f"{n} pairs of values with exponents in {{-inf, -300 .. 300}}: finite and equal to the sum")
+    return r
+
+
+RULES = [rule_addereval, rule_corekey, rule_zeroshape, rule_combine, rule_pair, rule_adder, rule_rescale, rule_scale, rule_option, rule_fresh]
